@@ -135,6 +135,9 @@ EXTRA = {
 }
 for pid, extra in EXTRA.items():
     CHECKS[pid]["text"] = CHECKS[pid]["text"].rstrip() + " Also: " + extra
+EXTRA2 = {'C01': 'Every class of lone surrogate (first/last high, first low, both sides of U+DC80..U+DCFF, reversed pair) must be refused with DumpError in every container position and over the channel.', 'C02': 'The cyclic garbage collector as an environment choice on the sending path (a finalizer of another channel sends from inside _send), small and 70 kB items, all transports.', 'C03': "Late-close histories: the peer ended its side first (close / drop / drop with callback / gateway exit), then this side closes: isclosed, send -> OSError, second close no-op, the peer's callback gets its endmarker.", 'C04': "Base scenario F: the callback channel's handle was dropped before the cut.", 'C05': "Members exit()ed before terminate() (term-after-exit histories on every topology); a real cell for execnet's own atexit hook (known finding on Python >= 3.12).", 'C06': '8 more shapes whose outer code object names only builtins and locals (the global is used from an inner def / lambda / generator / class body / default / keyword default).', 'C10': 'Histories in which the callback itself raises on the first / second item (the endmarker still comes exactly once, nothing after it).', 'C11': 'Workers with a history (1-2 bodies ran to completion before the activity).', 'C15': 'The same spec string used again in one process: by a group with another remote exec model and twice by one group (exec model and id of every worker).', 'C16': 'ProxyIO.wait() on a proxied process that lingers 0.5 .. 120 virtual seconds on a non-daemon thread.', 'C17': "Entry names beginning with a dot (hidden files, '..data' directories) as entries and as absolute / relative link targets.", 'C18': 'Callback conversations ended by the callback failing while the peer keeps its end and goes on sending; a collection of a cyclic-garbage channel at any statement of another conversation.'}
+for pid, extra in EXTRA2.items():
+    CHECKS[pid]["text"] = CHECKS[pid]["text"].rstrip() + (" " if pid in EXTRA else " Also: ") + extra
 
 checks = []
 for pid, c in CHECKS.items():
